@@ -1217,7 +1217,10 @@ def m_bitvec_from_bytes(E, st, fr, bi, callee, args, dest_ty):
     s = as_seq(E, st, args[0])
     eight = usize(E, st, 8)
     ln = E.binop(st, "Mul", s.len, eight, E.ctx.usize_ty(), False)
-    return ret1(Md("bitvec", {"len": ln}), st)
+    d = {"len": ln}
+    if s.head:
+        d["src"] = s          # bytes at constant positions: lets get()/index() decide bits that are known
+    return ret1(Md("bitvec", d), st)
 
 
 def m_bitvec_new(E, st, fr, bi, callee, args, dest_ty):
@@ -1227,6 +1230,29 @@ def m_bitvec_new(E, st, fr, bi, callee, args, dest_ty):
 def m_bitvec_len(E, st, fr, bi, callee, args, dest_ty):
     b = deref2(E, st, args[0])
     return ret1(b.d["len"], st)
+
+
+def known_bit(E, st, b, idx):
+    """0 / 1 when the bit at a constant position of a BitVec built from bytes is determined by what is known about
+    that byte (a constant, or known bits recorded as provenance ("kbits", (), (mask, value))); else None.
+    bit-vec's from_bytes puts the most significant bit of each byte first."""
+    src = b.d.get("src")
+    i = st.const(idx) if type(idx) is I else None
+    if src is None or i is None or not src.head or (i // 8) not in src.head:
+        return None
+    byte = src.head[i // 8]
+    if type(byte) is not I or byte.vid not in st.itv:
+        return None
+    sh = 7 - (i % 8)
+    lo, hi = st.itv[byte.vid]
+    if lo == hi:
+        return (lo >> sh) & 1
+    p = st.prov.get(byte.vid)
+    if p and p[0] == "kbits":
+        mask, val = p[2]
+        if (mask >> sh) & 1:
+            return (val >> sh) & 1
+    return None
 
 
 def m_bitvec_index(E, st, fr, bi, callee, args, dest_ty):
@@ -1239,7 +1265,8 @@ def m_bitvec_index(E, st, fr, bi, callee, args, dest_ty):
     if not ok:
         E.assume_cmp(st, "Lt", idx.vid, b.d["len"].vid)
     key = ("h", "bit", fr.id, bi)
-    st.store[key] = E.ctx.mk_int(st, 0, 1, E.ctx.bool_ty(), taint=True)
+    kb = known_bit(E, st, b, idx)
+    st.store[key] = E.ctx.mk_int(st, 0 if kb is None else kb, 1 if kb is None else kb, E.ctx.bool_ty(), taint=True)
     return ret1(Pt(key), st)
 
 
@@ -1249,7 +1276,8 @@ def m_bitvec_get(E, st, fr, bi, callee, args, dest_ty):
     r = E.decide_cmp(st, "Lt", idx, b.d["len"])
     vs = {}
     if r is not False:
-        vs[SOME] = (E.ctx.mk_int(st, 0, 1, E.ctx.bool_ty(), taint=True),)
+        kb = known_bit(E, st, b, idx)
+        vs[SOME] = (E.ctx.mk_int(st, 0 if kb is None else kb, 1 if kb is None else kb, E.ctx.bool_ty(), taint=True),)
     if r is not True:
         vs[NONE] = ()
     return ret1(En(vs), st)
